@@ -61,6 +61,19 @@ class StmtMixin:
             base = tgt.value
             cur = self.ev(base, st)
             k = self.ev(tgt.slice, st)
+            # site conditions at stores into a named container: contract['at_store'][<name>#<ordinal>] with skey / sval bound
+            bname = base.attr if isinstance(base, ast.Attribute) else (base.id if isinstance(base, ast.Name) else None)
+            ats = self.cur_contract.get("at_store", {})
+            if bname is not None and any(key_.split("#")[0] == bname for key_ in ats):
+                self.store_count = getattr(self, "store_count", {})
+                ordn = self.store_ord.get(id(tgt), 0) if hasattr(self, "store_ord") else 0
+                for key_ in (f"{bname}#{ordn}", bname):
+                    if key_ in ats:
+                        stb = st.clone()
+                        stb.env["skey"], stb.env["sval"] = k, val
+                        for i_, c_ in enumerate(ats[key_]):
+                            self.oblige(f"{self.cur}/at-store[{key_}].{i_}", "at", st, self.spec(c_, stb, self.entry), getattr(tgt, "lineno", 0))
+                        self.sites_seen.add("store:" + key_)
             wrap = None
             if isinstance(cur, T) and isinstance(cur.sort, tuple) and cur.sort[0] == "Opt" and isinstance(cur.sort[1], tuple):
                 wrap = cur.sort
